@@ -31,7 +31,7 @@ def id_roles(ctx):
     if key in _cache:
         return _cache[key]
     from .kern.interp import Interp, Undecided, Num, Arr, Struct, Cond, num_size
-    from .kern.expr import Expr
+    from .kern.expr import Expr, bitop
     f = ctx.facts
     adt = id_adt(ctx)
     fields = [x["name"] for x in f.adts[adt]["variants"][0]["fields"]]
@@ -71,19 +71,29 @@ def id_roles(ctx):
             role = None
             if isinstance(r, Struct) and mask in r.fields and isinstance(r.fields[mask], Num):
                 e_ = r.fields[mask].expr
-                if len(args) == 2 and fi.get("has_self") and e_ == Expr.atom(("call", "bitxor", G, Expr.atom(("call", "shl", one, Expr.leaf("$ix", "e"))))):
+                if len(args) == 2 and fi.get("has_self") and e_ == bitop("bitxor", G, Expr.atom(("call", "shl", one, Expr.leaf("$ix", "e")))):
                     role = "pop_edge"
                 elif len(args) == 1 and not fi.get("has_self") and e_ == Expr.atom(("call", "shl", one, Expr.symbol("E"))) - one:
                     role = "new"
                 elif len(args) == 2 and not fi.get("has_self") and e_ == Expr.leaf("$ix", "i"):
                     role = "from_id"
             elif isinstance(r, Cond):
-                k = r.key()
-                if k == "%s Ne 0" % Expr.atom(("call", "bitand", G, Expr.atom(("call", "shl", one, Expr.leaf("$ix", "e"))))).key():
+                def is_cmp(op, x, y):
+                    # the comparison in either operand order, or its negated dual
+                    t = r.tree
+                    neg = False
+                    while t[0] == "not":
+                        t, neg = t[1], not neg
+                    if t[0] != "cmp" or {t[2], t[3]} != {x, y}:
+                        return False
+                    eff = {"Eq": "Ne", "Ne": "Eq"}.get(t[1], t[1]) if neg else t[1]
+                    return eff == op
+                zero = Expr.zero().key()
+                if is_cmp("Ne", bitop("bitand", G, Expr.atom(("call", "shl", one, Expr.leaf("$ix", "e")))).key(), zero):
                     role = "has_edge"
-                elif k == "%s Eq 0" % G.key():
+                elif is_cmp("Eq", G.key(), zero):
                     role = "is_empty"
-                elif k == "%s Eq %s" % (Expr.atom(("call", "popcount", G)).key(), one.key()):
+                elif is_cmp("Eq", Expr.atom(("call", "popcount", G)).key(), one.key()):
                     role = "has_one_edge"
             elif isinstance(r, Num) and r.expr == G and len(args) == 1:
                 role = "get_id"
